@@ -248,6 +248,43 @@ theorem string_sort_descending (arr : Array (List Nat)) :
   rw [Str.ge_eq]
   revert t; cases Str.gt x y <;> cases Str.eq x y <;> simp
 
+/-- `HArray::Sort` / `Value::Sort` on an object (slots `(key, value, live)`, removed slots carry the
+    empty key): the slots are permuted as whole records, the keys end up ordered, and the association
+    denoted by the live slots answers every lookup as before.  (The rebuilt hash chains themselves
+    are C13's `generateHash`; on the real code every key is looked up after every Sort.) -/
+theorem object_sort_lookup (ascend : Bool) (slots : Array Slot3)
+    (hnd : (liveAssoc slots.toList).Pairwise (fun a b => a.1 ≠ b.1)) :
+    ∃ out, arraySort (fun (x y : Slot3) => Str.lt x.1 y.1) (fun x y => Str.gt x.1 y.1) ascend slots = some out ∧
+      out.toList.Perm slots.toList ∧
+      out.toList.Pairwise (fun x y => (if ascend then Str.le x.1 y.1 else Str.ge x.1 y.1) = true) ∧
+      ∀ k, lookupLive k out.toList = lookupLive k slots.toList := by
+  cases ascend with
+  | true =>
+    obtain ⟨out, h1, h2, h3⟩ := sortSeg_full (fun (x y : Slot3) => Str.lt x.1 y.1) _
+      (str_lt_strict.comap (fun s : Slot3 => s.1)) slots (fun _ _ => trivial)
+    refine ⟨out, by simpa [arraySort] using h1, h2, h3.imp ?_, ?_⟩
+    · intro x y h
+      have t := Str.tri x.1 y.1
+      rw [Str.gt_eq_lt_swap, h] at t
+      simp only [if_true]
+      rw [Str.le_eq]
+      revert t; cases Str.lt x.1 y.1 <;> cases Str.eq x.1 y.1 <;> simp
+    · intro k
+      exact (perm_lookup (liveAssoc_perm h2.symm) hnd k).symm
+  | false =>
+    obtain ⟨out, h1, h2, h3⟩ := sortSeg_full (fun (x y : Slot3) => Str.gt x.1 y.1) _
+      (str_gt_strict.comap (fun s : Slot3 => s.1)) slots (fun _ _ => trivial)
+    refine ⟨out, by simpa [arraySort] using h1, h2, h3.imp ?_, ?_⟩
+    · intro x y h
+      have t := Str.tri x.1 y.1
+      rw [Str.gt_eq_lt_swap] at h
+      rw [h] at t
+      simp only [Bool.false_eq_true, if_false]
+      rw [Str.ge_eq]
+      revert t; cases Str.gt x.1 y.1 <;> cases Str.eq x.1 y.1 <;> simp
+    · intro k
+      exact (perm_lookup (liveAssoc_perm h2.symm) hnd k).symm
+
 theorem val_lt_strict (d : Nat) : StrictOn (fun v : JVal => depth v = d) Val.lt where
   asymm := by
     intro x y hx hy h
@@ -341,6 +378,7 @@ example : ∀ x, x ∈ #[JVal.str [98], .nat 3, .null, .str [97]] → depth x = 
 example : arraySort Val.lt Val.gt true #[JVal.str [98], .nat 3, .null, .str [97], .str [98, 1]] =
     some #[.str [97], .str [98], .str [98, 1], .nat 3, .null] := by decide
 example : arraySort Str.lt Str.gt false #[[98], [], [97, 98], [97]] = some #[[98], [97, 98], [97], []] := by decide
+example : (liveAssoc [([98], 1, true), ([], 0, false), ([97], 2, true)]).Pairwise (fun a b => a.1 ≠ b.1) := by decide
 example : Str.lt [97, 98] [97, 98, 99] = true ∧ Str.gt [97, 98] [97, 98, 99] = false := by decide
 
 end Qentem.Props.C15
